@@ -228,6 +228,29 @@ pub fn gen_inputs(tier: &str, seed: u64, widen: bool) -> (Vec<(String, bool)>, u
             texts.push(format!("f :: () {{\n{}}}\n", item.repeat(n)));
         }
     }
+    // 4d. stray separators at element positions of every list construct, nested in every context
+    // that passes its own recovery set down (cast value, member value, parameter type, field type,
+    // array item, call argument, parentheses): a list loop that does not consume a token which its
+    // caller's recovery set contains makes no progress (seeded change C23_3: `i32.(switch x { , })`)
+    {
+        let contexts = [
+            "a :: %;\n", "a :: i32.(%);\n", "a :: S.{ f = % };\n", "a :: (x: %) {};\n", "a :: struct { f: % };\n", "a :: .[%];\n",
+            "a :: f(%);\n", "a :: (%);\n", "a :: () { x := %; };\n", "a :: enum { V: % };\n", "a :: [%]i32;\n", "a :: () -> % {};\n",
+        ];
+        let lists = [
+            "switch x { $ }", "switch x { .a => 1$ $ .b => 2 }", "switch x { .a => 1, $ }", "S.{ $ }", "S.{ f = 1$ $ g = 2 }", ".[ $ ]",
+            ".[1$ $ 2]", "f($)", "f(1$ $ 2)", "struct { $ }", "struct { f: i32$ $ g: i32 }", "enum { $ }", "enum { A$ $ B }",
+            "(x: i32$ $ y: i32) {}", "($) {}", "{ $ }", "{ x := 1$ $ y := 2; }", "#d($)", "comptime { $ }",
+        ];
+        let strays = [",", ";", "=>", ")", "}", "]", ":", "=", "|", "."];
+        for c in contexts {
+            for l in lists {
+                for st in strays {
+                    texts.push(c.replace('%', &l.replace('$', st)));
+                }
+            }
+        }
+    }
     // 5. random unicode / bytes
     for _ in 0..(n_soup / 10) {
         let n = rng.below(40);
